@@ -249,6 +249,18 @@ class RestartStageHandler(StabilizeHandler[RestartStage], _ControlHandler):
                         stage_id=stage.id,
                     )
                 )
+                # The stages downstream of this one may all be finished already
+                # (restart of a stage in the middle of a completed workflow): when
+                # the stage completes again its StartStage messages for them are
+                # dropped as stale and nothing would evaluate the re-opened
+                # workflow - it stayed RUNNING with an empty queue. Leave a
+                # CompleteWorkflow behind; it re-polls while the stage runs.
+                txn.push_message(
+                    CompleteWorkflow(
+                        execution_type=message.execution_type,
+                        execution_id=message.execution_id,
+                    )
+                )
 
             logger.info("Restarted stage %s (%s)", stage.name, stage.id)
 
